@@ -16,6 +16,11 @@ package main
 //      types with the right id for well-formed-but-different requests, nothing else;
 //   3. the served tree / handler call log equal the reference run cut before the malformed packet;
 //   4. no descriptor into the tree, every handler object closed exactly once, no package goroutine left.
+// Option dimensions (c07OptionConfigs): ReadOnly() on the os-backed server — the reference run and every
+// mutation of it go through the denial path: a modifying request (also one a mutation produced) is
+// answered PERMISSION_DENIED and the tree ends exactly as it began (os/readonly-not-denied/<kind>,
+// os/readonly-tree-changed); non-default start / working directories with relative session paths;
+// handlers and handler objects without their optional interfaces.
 
 import (
 	"encoding/hex"
@@ -24,6 +29,7 @@ import (
 	"math/rand"
 	"os"
 	"runtime"
+	"strings"
 	"time"
 
 	"verifharness/lib"
@@ -90,10 +96,113 @@ func c07FieldSession() []ssStep {
 
 var c07ValidTypes = []uint32{1, 3, 4, 5, 6, 7, 8, 9, 10, 11, 12, 13, 14, 15, 16, 17, 18, 19, 20, 200}
 
+// c07OptionConfigs: the option dimensions beyond {server kind, allocator, working directory}.
+//
+// os-backed server: ReadOnly() (every modifying request — also one a mutation made out of another — must be
+// refused with PERMISSION_DENIED and the tree stay as it was) x WithDebug x {absolute paths, working
+// directory + relative paths, working directory <tree>/home/u + relative paths} x allocator.
+// Request server: {default start directory, WithStartDirectory("/") + relative paths,
+// WithStartDirectory("/home/u") + absolute, + relative paths} x allocator x handlers/objects {all optional
+// interfaces, objects without Close and TransferError, handlers without OpenFileWriter / LstatFileLister /
+// PosixRenameFileCmder / StatVFSFileCmder, neither}.
+//
+// quick: four members (ReadOnly twice, start directory twice; allocator, path style and the interface
+// variant rotate with the seed), each on the field session and every third generated session; thorough:
+// the whole product, each member on a rotating share of the sessions with the sampled mutation density.
+func c07OptionConfigs(c *lib.Ctx, thorough bool, base []ssCfg) (out []ssCfg, share int) {
+	seen := map[string]bool{}
+	for _, b := range base {
+		seen[b.String()] = true
+	}
+	add := func(cfg ssCfg) {
+		if k := cfg.String(); !seen[k] {
+			seen[k] = true
+			out = append(out, cfg)
+		}
+	}
+	objs, hdls := "closer,terr", "openfile,lstat,posixrename,statvfs"
+	variants := []string{"", objs, hdls, objs + "," + hdls}
+	if !thorough {
+		b := func(n uint) bool { return c.Seed>>n&1 == 1 }
+		add(ssCfg{Kind: "os", RO: true, Alloc: b(0)})
+		add(ssCfg{Kind: "os", RO: true, WorkDir: true, Alloc: !b(0), Start: []string{"", c11Start}[c.Seed>>1&1], Debug: b(2)})
+		// (the first of the two keeps every optional interface: its reference runs have partners among the
+		// base configurations for the path-style comparison)
+		add(ssCfg{Kind: "rs", Start: c11Start, WorkDir: true, Alloc: b(1)})
+		add(ssCfg{Kind: "rs", Start: c11Start, Alloc: !b(1), Without: variants[int(c.Seed&0xffff)%4]})
+		return out, 3
+	}
+	for _, alloc := range []bool{false, true} {
+		for _, loc := range []ssCfg{{}, {WorkDir: true}, {WorkDir: true, Start: c11Start}} {
+			for _, ro := range []bool{false, true} {
+				for _, dbg := range []bool{false, true} {
+					add(ssCfg{Kind: "os", Alloc: alloc, RO: ro, Debug: dbg, WorkDir: loc.WorkDir, Start: loc.Start})
+				}
+			}
+		}
+		for _, loc := range []ssCfg{{}, {WorkDir: true}, {Start: c11Start}, {WorkDir: true, Start: c11Start}} {
+			for _, w := range variants {
+				add(ssCfg{Kind: "rs", Alloc: alloc, WorkDir: loc.WorkDir, Start: loc.Start, Without: w})
+			}
+		}
+	}
+	return out, c07ThoroughShare
+}
+
+// thorough: every member of the option product meets 1/c07ThoroughShare of the generated sessions (2 of 12),
+// every c07ThoroughFieldShare-th member the field session and every ReadOnly() member the read-only
+// session — all mutated with the sampled density of the quick tier (the exhaustive per-byte / per-value
+// density stays with the eight base configurations: the tier is at its ten minutes)
+const (
+	c07ThoroughShare      = 6
+	c07ThoroughFieldShare = 2
+)
+
+// c07StyleFree strips from a configuration what must not influence the replies to a valid session.
+func c07StyleFree(cfg ssCfg) ssCfg {
+	cfg.Alloc, cfg.WorkDir, cfg.Start, cfg.Debug = false, false, "", false
+	return cfg
+}
+
+// c07ReplyClass: type and, for STATUS, the code of a reply rendered by ssReplyText.
+func c07ReplyClass(text string) string {
+	f := strings.Fields(text)
+	if len(f) >= 3 && f[0] == "STATUS" {
+		return f[0] + " " + f[2]
+	}
+	if len(f) > 0 {
+		return f[0]
+	}
+	return ""
+}
+
+// c07CmpRefs compares the reference runs of one session on two configurations that differ only in path
+// style / start directory / allocator / debug writer.
+func c07CmpRefs(r *lib.Result, a *ssPJob, ra *ssResult, b *ssPJob, rb *ssResult) {
+	n := min(len(ra.Replies), len(rb.Replies), len(a.Prog))
+	for i := 0; i < n; i++ {
+		ca, cb := c07ReplyClass(ra.Replies[i]), c07ReplyClass(rb.Replies[i])
+		if ca == cb {
+			continue
+		}
+		op := a.Prog[i].Op
+		if op == "ext" {
+			op += ":" + a.Prog[i].Ext
+		}
+		in := a.input()
+		in.Cmp = &b.Cfg
+		r.Fail(lib.Failure{Kind: "oracle", Key: fmt.Sprintf("%s/reply-depends-on-path-style/%s", a.Cfg.Kind, op),
+			What:     fmt.Sprintf("the same valid session gets a different reply to step %d (%+v) on %s than on %s, which differ only in path style / start directory / allocator / debug writer", i, a.Prog[i], b.Cfg.String(), a.Cfg.String()),
+			Input:    in,
+			Expected: a.Cfg.String() + ": " + ra.Replies[i], Actual: b.Cfg.String() + ": " + rb.Replies[i]})
+		return // later steps may differ as a consequence
+	}
+}
+
 func checkC07(c *lib.Ctx) {
 	r := c.R
 	thorough := c.Tier == "thorough"
-	r.Rule = "sessions: INIT + PRNG mix of 24 request kinds (OPEN r/w/rw, READ, WRITE, FSTAT, FSETSTAT, CLOSE, OPENDIR, READDIR, STAT, LSTAT, MKDIR, RMDIR, REMOVE, RENAME, SYMLINK, READLINK, REALPATH, SETSTAT, statvfs/posix-rename/hardlink/unknown extended), incl. failing opens, never-issued handles and (one flavour) handles of the wrong kind; recorded interactively against os-backed Server (absolute paths / working directory + relative paths) and RequestServer with counting in-memory handlers, allocator on and off. Mutations of the recorded stream, one per case: cut at byte k then EOF (quick: every frame boundary, boundary+-1 and PRNG offsets; thorough: every k), every frame's length field := 0,1,n-1,n+1,2^31-1,2^32-1, every frame's type byte := sample incl. 0,2,21,99,101-105,199,201,255 and other valid types (thorough: all 0..255), every string-length field := 0,n-1,n+1,n+1000,2^32-1, whole-field mutations (every integer field the judge finds in a request: frame length, id, version, string lengths, READ/WRITE offset and length, pflags, attribute flags, size, uid, gid, permissions, times, extended count := 0,1,2^31-1,2^31,2^32-16..2^32-1 and for 64-bit fields also 2^32,2^63-1,2^63,2^64-16..2^64-1; string lengths 0/1 also with the string cut to fit and attribute flags also with the block zero-padded to fit, so that the request is dispatched with the extreme value; quick: PRNG choice of 1 value per field (3 in the dedicated session that exercises read/write/read-write/directory handles and full attribute blocks), but ALL values for the offsets and lengths of that session's READs and WRITEs; thorough: all values), garbage appended, crafted raw frames (F3/short-attribute witnesses), and the same for path-only sessions sent pipelined. Each case runs on a fresh server in a child process; a case is non-trivial when the stream differs from the reference stream; distinct by (server config, session, mutation)"
+	r.Rule = "sessions: INIT + PRNG mix of 24 request kinds (OPEN r/w/rw, READ, WRITE, FSTAT, FSETSTAT, CLOSE, OPENDIR, READDIR, STAT, LSTAT, MKDIR, RMDIR, REMOVE, RENAME, SYMLINK, READLINK, REALPATH, SETSTAT, statvfs/posix-rename/hardlink/unknown extended), incl. failing opens, never-issued handles and (one flavour) handles of the wrong kind; recorded interactively against os-backed Server (absolute paths / working directory + relative paths) and RequestServer with counting in-memory handlers, allocator on and off; option dimensions — os-backed: ReadOnly() (every modifying request, also one made by a mutation, must be refused with PERMISSION_DENIED and the tree stay as it was) x WithDebug x {absolute, working directory, working directory <tree>/home/u + relative paths} x allocator; request server: {default, WithStartDirectory(\"/\") + relative, WithStartDirectory(\"/home/u\") + absolute, + relative paths} x allocator x {all optional interfaces, handler objects without Close / TransferError, handlers without OpenFileWriter / LstatFileLister / PosixRenameFileCmder / StatVFSFileCmder, neither}; quick: four members of that product (rotating with the seed) on the field session and every third generated session, thorough: the whole product (24 os + 32 rs members) on rotating shares of the sessions, mutated with the sampled density; ReadOnly() configurations also record a \"read-only\" session (every modifying request kind, OPEN with the combinations of write / create / truncate / append / excl / read) and get ALL boundary values for every OPEN's pflags; reference runs of one session on configurations that differ only in path style / start directory / allocator / debug writer are compared reply by reply (type and status code). Mutations of the recorded stream, one per case: cut at byte k then EOF (quick: every frame boundary, boundary+-1 and PRNG offsets; thorough: every k), every frame's length field := 0,1,n-1,n+1,2^31-1,2^32-1, every frame's type byte := sample incl. 0,2,21,99,101-105,199,201,255 and other valid types (thorough: all 0..255), every string-length field := 0,n-1,n+1,n+1000,2^32-1, whole-field mutations (every integer field the judge finds in a request: frame length, id, version, string lengths, READ/WRITE offset and length, pflags, attribute flags, size, uid, gid, permissions, times, extended count := 0,1,2^31-1,2^31,2^32-16..2^32-1 and for 64-bit fields also 2^32,2^63-1,2^63,2^64-16..2^64-1; string lengths 0/1 also with the string cut to fit and attribute flags also with the block zero-padded to fit, so that the request is dispatched with the extreme value; quick: PRNG choice of 1 value per field (3 in the dedicated session that exercises read/write/read-write/directory handles and full attribute blocks), but ALL values for the offsets and lengths of that session's READs and WRITEs; thorough: all values), garbage appended, crafted raw frames (F3/short-attribute witnesses), and the same for path-only sessions sent pipelined. Each case runs on a fresh server in a child process; a case is non-trivial when the stream differs from the reference stream; distinct by (server config, session, mutation)"
 	base, err := ssMkBase(ssBaseRnd())
 	if err != nil {
 		r.Fail(lib.Failure{Kind: "tie", Key: "tmpdir", What: err.Error()})
@@ -114,6 +223,20 @@ func checkC07(c *lib.Ctx) {
 		j := &ssPJob{Kind: "c07", Cfg: in.Cfg, Prog: in.Prog, PID: ssProgID(in.Cfg, in.Prog), Mut: in.Mut}
 		if in.Mut == nil {
 			j.Kind = "ref"
+		}
+		if in.Cmp != nil { // a path-style comparison: the two reference runs, then their replies
+			j2 := &ssPJob{Kind: "ref", Cfg: *in.Cmp, Prog: in.Prog, PID: ssProgID(*in.Cmp, in.Prog)}
+			col := &ssCollector{r: r, base: base, jobs: []*ssPJob{j, j2}}
+			res, res2 := ssRunAlone(base, j), ssRunAlone(base, j2)
+			res.Prev, res2.Prev = -1, -1
+			r.Case(fmt.Sprint(j.input(), *in.Cmp), true)
+			col.done(0, j, &res)
+			col.done(1, j2, &res2)
+			col.confirm(1)
+			if !res.Crash && !res2.Crash {
+				c07CmpRefs(r, j, &res, j2, &res2)
+			}
+			return
 		}
 		col := &ssCollector{r: r, base: base, jobs: []*ssPJob{j}}
 		res := ssRunAlone(base, j)
@@ -143,6 +266,17 @@ func checkC07(c *lib.Ctx) {
 	if thorough {
 		cfgs = append(cfgs, ssCfg{Kind: "os", WorkDir: true, Alloc: true}, ssCfg{Kind: "rs", WorkDir: true})
 	}
+	// option dimensions (see c07OptionConfigs): these configurations meet the field session and a rotating
+	// share of the generated sessions
+	optCfgs, optShare := c07OptionConfigs(c, thorough, cfgs)
+	if bad, n := cntVariantsSelfTest(optCfgs); len(bad) > 0 {
+		for _, b := range bad {
+			r.Fail(lib.Failure{Kind: "tie", Key: "tie/interface-variant-selftest", What: b})
+		}
+		return
+	} else {
+		r.Histogram["selftest/interface-variants-verified-by-type-assertion"] += n
+	}
 	for i := range sessions {
 		sessions[i].idx = i
 	}
@@ -157,12 +291,16 @@ func checkC07(c *lib.Ctx) {
 		job  *ssPJob
 		sess c07Session
 		res  ssResult
+		opt  bool // a member of the option product: mutated with the sampled (quick) density in both tiers
 	}
 	var refs []*refInfo
 	var jobs []*ssPJob
+	sessOf := map[string]string{}
+	optRefs := false
 	addRef := func(cfg ssCfg, s c07Session) {
 		j := &ssPJob{Kind: "ref", Cfg: cfg, Prog: s.prog, PID: ssProgID(cfg, s.prog)}
-		refs = append(refs, &refInfo{job: j, sess: s})
+		sessOf[j.PID] = s.name
+		refs = append(refs, &refInfo{job: j, sess: s, opt: optRefs})
 		jobs = append(jobs, j)
 	}
 	for _, cfg := range cfgs {
@@ -170,11 +308,44 @@ func checkC07(c *lib.Ctx) {
 			addRef(cfg, s)
 		}
 	}
+	optRefs = true
+	for ci, cfg := range optCfgs {
+		for si, s := range sessions {
+			if (si+ci+int(c.Seed&0xffff))%optShare == 0 {
+				addRef(cfg, s)
+			}
+		}
+	}
+	optRefs = false
+	// the "read-only" flavour (every modifying request kind, OPEN with every kind of modifying pflags), on
+	// every ReadOnly() configuration
+	nROOps, nROCmds := 6, 6
+	if thorough {
+		nROOps, nROCmds = 0, 0
+	}
+	roSess := c07Session{name: "readonly", prog: ssGenReadOnly(c.Rand, true, nROOps, nROCmds), idx: len(sessions)}
+	for _, st := range roSess.prog {
+		r.Hist("op/" + st.Op)
+	}
+	optRefs = true
+	for _, cfg := range optCfgs {
+		if cfg.RO {
+			addRef(cfg, roSess)
+		}
+	}
+	optRefs = false
 	// the field-mutation session, on every configuration
 	fieldSess := c07Session{name: "fields", prog: c07FieldSession()}
 	for _, cfg := range cfgs {
 		addRef(cfg, fieldSess)
 	}
+	optRefs = true
+	for ci, cfg := range optCfgs {
+		if !thorough || (ci+int(c.Seed&0xffff))%c07ThoroughFieldShare == 0 {
+			addRef(cfg, fieldSess)
+		}
+	}
+	optRefs = false
 	// special sessions
 	bigRead := c07Session{name: "read-300000", prog: []ssStep{{Op: "init"}, {Op: "open", P1: "b.bin", Pf: wire.FRead}, {Op: "read", H: 1, Len: 300000}, {Op: "close", H: 1}}}
 	for _, cfg := range []ssCfg{{Kind: "os", MaxTx: 1 << 19}, {Kind: "rs", MaxTx: 1 << 19}, {Kind: "os", Alloc: true, MaxTx: 1 << 19}, {Kind: "rs", Alloc: true, MaxTx: 1 << 19}} {
@@ -198,6 +369,30 @@ func checkC07(c *lib.Ctx) {
 		col.done(i, j, res)
 	})
 	col.confirm(3)
+
+	// ---- phase 1b: the replies to a valid session do not depend on where the tree lives or how its paths
+	// are spelled (absolute / relative to the working or start directory, default or other start directory),
+	// nor on the allocator or the debug writer: reference runs of one session on configurations that differ
+	// only in that are compared reply by reply (type and status code)
+	groups := map[string][]*refInfo{}
+	var gkeys []string
+	for _, ri := range refs {
+		if ri.res.Crash || ri.res.Timeout || len(ri.res.Replies) != len(ri.job.Prog) {
+			continue
+		}
+		k := c07StyleFree(ri.job.Cfg).String() + " " + ri.sess.name
+		if groups[k] == nil {
+			gkeys = append(gkeys, k)
+		}
+		groups[k] = append(groups[k], ri)
+	}
+	for _, k := range gkeys {
+		g := groups[k]
+		for _, ri := range g[1:] {
+			r.Hist("path-style-comparison/" + g[0].job.Cfg.Kind)
+			c07CmpRefs(r, g[0].job, &g[0].res, ri.job, &ri.res)
+		}
+	}
 
 	// ---- phase 2: mutations ----
 	jobs = nil
@@ -224,6 +419,7 @@ func checkC07(c *lib.Ctx) {
 		if ri.sess.name == "read-300000" {
 			continue
 		}
+		thorough := thorough && !ri.opt // option-product members: sampled density in both tiers
 		// whole-field mutations: every integer field of every request := boundary values
 		if len(ri.res.Fields) == len(L) {
 			for i := range L {
@@ -233,7 +429,9 @@ func checkC07(c *lib.Ctx) {
 					vals := c07FieldVals(f.W)
 					// quick: PRNG choice of values per field — except the offsets and lengths of the READs and
 					// WRITEs of the field session (live handles of every kind), which always get all of them
-					if !thorough && !(ri.sess.name == "fields" && (op == "read" || op == "write") && (f.Name == "offset" || f.Name == "len" || f.Name == "data-len")) {
+					// and the pflags of every OPEN sent to a ReadOnly() server (every combination of the low flag bits)
+					if !thorough && !(ri.sess.name == "fields" && (op == "read" || op == "write") && (f.Name == "offset" || f.Name == "len" || f.Name == "data-len")) &&
+						!(ri.job.Cfg.RO && f.Name == "pflags") {
 						n := 1
 						if ri.sess.name == "fields" {
 							n = 3
@@ -377,6 +575,10 @@ func checkC07(c *lib.Ctx) {
 		}
 		r.Hist("mut/" + mk)
 		r.Hist("cfg/" + j.Cfg.String())
+		r.Hist("session/" + sessOf[j.PID])
+		for _, d := range c11Dims(j.Cfg) {
+			r.Hist("option/" + d)
+		}
 		if res.EndClass != "" {
 			r.Hist("stream-end/" + res.EndClass)
 			if res.NB > 0 {
@@ -390,6 +592,7 @@ func checkC07(c *lib.Ctx) {
 		col2.done(i, j, res)
 	})
 	col2.confirm(3)
+	r.Note("option configurations: %d (each on 1/%d of the generated sessions)", len(optCfgs), optShare)
 	r.Note("sessions=%d configs=%d reference-runs=%d mutation-cases=%d children=%d; every case ran on a fresh server in a child process; child deaths: %d in reference runs, %d in mutation runs", len(sessions), len(cfgs), len(refs), len(jobs), workers, len(col.crashed), len(col2.crashed))
 	r.Skip("model comparison: no Lean driver op for C07 yet. Trace that can be handed to a model: `c07.run <kind os|rs> <alloc 0|1> <reqs: kind[:handle-ref][:pflags],…> <cut: frame index, end class clean|trunc|badlen|unknown-type|short-body>` with the observed reply types/status codes as oracle answers; expected output: number of responses, final open-handle count, store = store after the longest well-formed prefix")
 }
